@@ -141,3 +141,18 @@ def u_ccd_twice(E):
     E.call(Q + 'calculate_check_digit', s1)
     r = E.call(Q + 'calculate_check_digit', s2)
     expect_char(E, 'ccd/second-call', r, 48 + S.luhn_cd(E, lambda i: s2.at(i) - 48, s2.n))
+
+
+@unit('card.calculate_check_digit/any-text-with-separators', props=['C15'], functions=[Q + 'calculate_check_digit'])
+def u_ccd_separators(E):
+    """card numbers as printed or typed (blanks, dashes, any other ASCII characters between the digits): the result is the
+    Luhn digit of the digits of the text, in order -- the weighting counts digits from the right, not characters"""
+    s = E.fresh_seq('str', 's', lo=32, hi=126)
+    E.native_input({'s': s, 'opt': False, 'deep': False})
+    r = E.call(Q + 'calculate_check_digit', s)
+    flt = E.ghost.get('filtered')
+    E.prove('ccd[any text]/digits-are-selected-from-the-text', z3.BoolVal(flt is not None and flt['source'] is not None), 'I')
+    if flt is None:
+        return
+    m, SEL = flt['m'], flt['SEL']
+    expect_char(E, 'ccd[any text]', r, 48 + S.luhn_cd(E, lambda i: s.at(SEL(I(i))) - 48, m))
